@@ -117,6 +117,8 @@ type profile struct {
 	// LEADER's handled Ready may also stay un-advanced across deliveries that cannot grow its log (anything but a proposal)
 	script  bool // deferAdv only, 5 nodes: the schedule starts with a scripted prologue (scriptConflictInsideReady), then continues at random
 	prevote bool // Config.PreVote (+CheckQuorum): library features raftexample leaves off; outside the model, safety predicates only
+	joint   bool // Stage D step 7 (with mlock): membership proposals are ConfChangeV2 of every shape (single change, EnterJoint explicit / with automatic
+	// leave, LeaveJoint) next to the legacy ConfChange; the schedule is replayed event by event on the joint handler RHJ.handleJ (header RJ)
 }
 
 var profiles = []profile{
@@ -139,6 +141,26 @@ var profiles = []profile{
 	{name: "reorder", wTick: 12, wDeliver: 40, wDrop: 2, wPropose: 10, wCampaign: 5, wCrash: 2, wCompact: 2, pDup: 0.5},
 	{name: "prevote-reorder", wTick: 14, wDeliver: 38, wDrop: 3, wPropose: 8, wCampaign: 10, wCrash: 2, wCompact: 1, pDup: 0.5, prevote: true},
 	{name: "prevote-partition", wTick: 25, wDeliver: 45, wDrop: 4, wPropose: 8, wCampaign: 8, wCrash: 2, wCompact: 1, pDup: 0.3, partition: 30, pHeal: 0.4, prevote: true},
+}
+
+// profiles selected by name only (-profile): they do not take part in the round-robin of runRaftsim
+var soloProfiles = []profile{
+	{name: "member-joint", wTick: 22, wDeliver: 55, wDrop: 3, wPropose: 8, wCampaign: 3, wCrash: 2, wCompact: 2, pDup: 0.1, member: 8, mlock: true, joint: true},
+	{name: "member-joint-partition", wTick: 24, wDeliver: 50, wDrop: 4, wPropose: 8, wCampaign: 3, wCrash: 2, wCompact: 2, pDup: 0.15, partition: 40, pHeal: 0.4, member: 8, mlock: true, joint: true},
+}
+
+func profileByName(name string) (profile, bool) {
+	for _, p := range profiles {
+		if p.name == name {
+			return p, true
+		}
+	}
+	for _, p := range soloProfiles {
+		if p.name == name {
+			return p, true
+		}
+	}
+	return profile{}, false
 }
 
 type poolMsg struct {
@@ -195,6 +217,16 @@ func (s *sim) newRawNode(nd *simNode) *raft.RawNode {
 	if s.prof.prevote {
 		c.PreVote = true // the library's pre-vote phase (raftexample leaves it off): delayed / duplicated pre-vote responses
 	}
+	if s.prof.joint {
+		// a restart finds the storage as raftexample rebuilds it (ApplySnapshot, then the WAL entries after it): nothing at or below the snapshot
+		// index is handed to the application again.  This harness keeps the MemoryStorage object, whose first index may lie BELOW its snapshot
+		// index (Compact(ci) with ci < snapshot index), and raftLog.applied starts at firstIndex-1: the entries in between would be applied a second
+		// time on top of the snapshot's ConfState - harmless for single changes (idempotent), a Changer refusal ("config is already joint")
+		// for an EnterJoint.  Config.Applied is the library's way to say where the application stands.
+		if snap, err := nd.ms.Snapshot(); err == nil {
+			c.Applied = snap.Metadata.Index
+		}
+	}
 	rn, err := raft.NewRawNode(c)
 	if err != nil {
 		panic(err)
@@ -234,7 +266,11 @@ func newSim(n int, seed int64, prof profile, w *bufio.Writer) *sim {
 		for _, v := range voters {
 			m[v] = struct{}{}
 		}
-		fmt.Fprintf(w, "RC %s\n", idsCsv(m))
+		if prof.joint {
+			fmt.Fprintf(w, "RJ %s\n", idsCsv(m))
+		} else {
+			fmt.Fprintf(w, "RC %s\n", idsCsv(m))
+		}
 	}
 	return s
 }
@@ -295,12 +331,31 @@ func conv(es []pb.Entry) []ent {
 			var cc pb.ConfChange
 			_ = cc.Unmarshal(e.Data)
 			p = 1<<40 | uint64(cc.Type)<<8 | cc.NodeID
+		} else if e.Type == pb.EntryConfChangeV2 {
+			var cc pb.ConfChangeV2
+			_ = cc.Unmarshal(e.Data)
+			p = encV2(cc)
 		} else if e.Type != pb.EntryNormal {
 			p = math.MaxUint32 - 1
 		}
 		out = append(out, ent{e.Term, p})
 	}
 	return out
+}
+
+// a ConfChangeV2 as a number: 2<<40 | transition<<36 | len(changes)<<32 | up to four changes, one byte each (type<<6 | id), first change highest
+func encV2(cc pb.ConfChangeV2) uint64 {
+	if len(cc.Changes) > 4 {
+		panic("harness: ConfChangeV2 with more than four changes has no trace encoding")
+	}
+	p := uint64(2)<<40 | uint64(cc.Transition)<<36 | uint64(len(cc.Changes))<<32
+	for k, c := range cc.Changes {
+		if c.NodeID > 63 {
+			panic("harness: node id too large for the trace encoding")
+		}
+		p |= (uint64(c.Type)<<6 | c.NodeID) << (8 * uint(3-k))
+	}
+	return p
 }
 
 func fmtMsg(m pb.Message) string {
@@ -384,7 +439,7 @@ func (nd *simNode) isConfAt(idx uint64) bool {
 		return pb.EntryType(ents.Index(int(idx-off)).FieldByName("Type").Int()) != pb.EntryNormal
 	}
 	if idx >= 2 && int(idx-2) < len(nd.shadow) {
-		return nd.shadow[idx-2].pid>>40 == 1 || nd.shadow[idx-2].pid == math.MaxUint32-1
+		return nd.shadow[idx-2].pid>>40 == 1 || nd.shadow[idx-2].pid>>40 == 2 || nd.shadow[idx-2].pid == math.MaxUint32-1
 	}
 	return false
 }
@@ -427,7 +482,7 @@ func (s *sim) propsInput(nd *simNode, ents []pb.Entry, err error) string {
 // gateProbe steps a proposal message with n conf-change entries and, when the node is the leader and the proposal is taken, reports which
 // entries were appended as conf changes (1) or replaced by empty entries (0) and what pendingConfIndex became
 func (s *sim) gateProbe(nd *simNode, n int, step func() error) error {
-	if s.prof.member == 0 {
+	if s.prof.member == 0 || s.prof.joint { // joint schedules: the three-reason gate is judged through the E lines (log and pendingConfIndex)
 		return step()
 	}
 	bs := nd.rn.BasicStatus()
@@ -579,6 +634,22 @@ func (s *sim) drain(nd *simNode) (out []pb.Message, post []string) {
 			post = append(post, fmt.Sprintf("apply:%d", rd.CommittedEntries[k-1].Index-1))
 		}
 		for _, e := range rd.CommittedEntries {
+			if e.Type == pb.EntryConfChangeV2 { // Stage D step 7
+				var cc pb.ConfChangeV2
+				if err := cc.Unmarshal(e.Data); err != nil {
+					panic("harness: conf change v2 does not unmarshal")
+				}
+				nd.conf = *nd.rn.ApplyConfChange(cc)
+				nd.recordConf(e.Index, nd.conf)
+				s.stats["confchange-applied"]++
+				s.stats["confchangev2-applied"]++
+				if len(nd.conf.VotersOutgoing) > 0 {
+					s.stats["confchangev2-now-joint"]++
+				}
+				if !s.hasProgress(nd) {
+					nd.removed = true
+				}
+			}
 			if e.Type == pb.EntryConfChange { // Stage D: apply before Advance, as raftexample's publishEntries does
 				var cc pb.ConfChange
 				if err := cc.Unmarshal(e.Data); err != nil {
@@ -630,6 +701,16 @@ func (s *sim) drain(nd *simNode) (out []pb.Message, post []string) {
 		}
 		if ack {
 			post = append(post, "selfAck")
+		}
+		if s.prof.joint && (len(rd.CommittedEntries) > 0 || !raft.IsEmptySnap(rd.Snapshot)) {
+			// `advance` moves raftLog.applied and, on a leader whose configuration has AutoLeave, may append the empty ConfChangeV2 itself
+			post = append(post, fmt.Sprintf("adv:%d", sat1(nd.rn.BasicStatus().Applied)))
+			last := nd.lastIndex()
+			nd.rn.Advance(rd)
+			if nd.lastIndex() > last {
+				s.stats["autoleave-appended"]++
+			}
+			continue
 		}
 		nd.rn.Advance(rd)
 		if s.prof.lazy && s.rng.Intn(2) == 0 {
@@ -733,6 +814,10 @@ func (s *sim) event(kind string, i int, call func() []string) {
 		if s.prof.mlock {
 			vs, ls, _ := cfgSets(nd.rn)
 			line += fmt.Sprintf(" %d %s %s", sat1(nd.rn.BasicStatus().Applied), vs, ls)
+			if s.prof.joint {
+				c := nd.rn.Status().Config
+				line += fmt.Sprintf(" %s %s %s %d", idsCsv(c.Voters[1]), idsCsv(c.LearnersNext), b01(jAutoLeave(nd.rn)), sat1(pendingConfIndexOf(nd.rn)))
+			}
 		}
 	}()
 	if (s.prof.member > 0 || s.prof.prevote) && !s.prof.mlock && strings.HasPrefix(line, "E ") {
@@ -926,6 +1011,10 @@ func (s *sim) doCampaign(i int) {
 				f = "-"
 			}
 			pendingSnap := !raftField(nd.rn, "raftLog", "unstable").FieldByName("snapshot").IsNil()
+			jcfg := ""
+			if s.prof.joint {
+				jcfg = jCfg(nd.rn)
+			}
 			_ = nd.rn.Campaign()
 			if pendingSnap {
 				return []string{"hup"} // promotable() also refuses while a snapshot is waiting to be applied: outside the model
@@ -933,6 +1022,18 @@ func (s *sim) doCampaign(i int) {
 			camp := 0
 			if nd.rn.BasicStatus().Term > bs.Term {
 				camp = 1
+			}
+			if s.prof.joint {
+				role := 0
+				switch bs.RaftState {
+				case raft.StateCandidate, raft.StatePreCandidate:
+					role = 1
+				case raft.StateLeader:
+					role = 2
+				}
+				fmt.Fprintf(s.w, "JH %d %d %s %s %d\n", nd.id, role, jcfg, f, camp)
+				s.stats["tie-JH"]++
+				return []string{"hup"}
 			}
 			fmt.Fprintf(s.w, "HP %d %d %s %s %s %d\n", nd.id, int(bs.RaftState), vs, ls, f, camp)
 			s.stats["tie-HP"]++
@@ -1090,6 +1191,10 @@ func (s *sim) doCompact(i int) bool {
 // Stage D: propose one simple membership change (add a voter, add a learner, promote = add a learner as voter, remove)
 func (s *sim) doConfChange(i int) {
 	nd := s.nodes[i]
+	if s.prof.joint && s.rng.Intn(4) != 0 {
+		s.doConfChangeV2(i)
+		return
+	}
 	x := uint64(1 + s.rng.Intn(s.n))
 	isVoter := false
 	for _, v := range nd.conf.Voters {
@@ -1154,6 +1259,132 @@ func (s *sim) doConfChange(i int) {
 			return []string{s.propsInput(nd, []pb.Entry{{Type: pb.EntryConfChange, Data: data}}, err)}
 		}
 		return []string{"confchange"}
+	})
+}
+
+// does the node's own id have a Progress in its tracker?
+func (s *sim) hasProgress(nd *simNode) bool {
+	c := nd.rn.Status().Config
+	for _, m := range []map[uint64]struct{}{c.Voters[0], c.Voters[1], c.Learners, c.LearnersNext} {
+		if _, in := m[nd.id]; in {
+			return true
+		}
+	}
+	return false
+}
+
+// Stage D step 7: propose a ConfChangeV2 of a random shape, as the node's application sees its configuration (nd.conf, possibly stale):
+// one change with Transition=Auto (Simple), 2-3 changes with Auto (EnterJoint, automatic leave), JointImplicit / JointExplicit with 1-3 changes,
+// the empty ConfChangeV2 (LeaveJoint); a quarter of them inside one proposal message with 2-3 conf-change entries.  Never JointExplicit /
+// JointImplicit WITHOUT changes (passes the gate while joint and panics at apply: RSJ.enter_empty_passes_gate_and_is_refused_by_changer, suite
+// joint-through-rawnode); a proposal removes / demotes voters only as long as two of the proposer's view remain (the Changer must not be asked for a
+// zero-voter config: etcd panics, an application error) - in a five-node cluster up to three voters are replaced at once, so that the two halves of a
+// joint configuration have DIFFERENT quorums (a tally or commit decision that looked at one half only is then wrong).
+func (s *sim) randomV2(nd *simNode) pb.ConfChangeV2 {
+	voters := map[uint64]bool{}
+	for _, v := range nd.conf.Voters {
+		voters[v] = true
+	}
+	shrunk, maxShrink := 0, len(voters)-2 // voters removed / demoted by this proposal: at least two remain (in the proposer's view)
+	one := func(allowUpdate bool) pb.ConfChangeSingle {
+		for {
+			id := uint64(1 + s.rng.Intn(s.n))
+			switch x := s.rng.Intn(100); {
+			case x < 45:
+				return pb.ConfChangeSingle{Type: pb.ConfChangeAddNode, NodeID: id}
+			case x < 62:
+				if voters[id] && shrunk >= maxShrink {
+					continue
+				}
+				if voters[id] {
+					shrunk++
+					delete(voters, id)
+				}
+				return pb.ConfChangeSingle{Type: pb.ConfChangeAddLearnerNode, NodeID: id}
+			case x < 92:
+				if voters[id] && shrunk >= maxShrink {
+					continue
+				}
+				if voters[id] {
+					shrunk++
+					delete(voters, id)
+				}
+				return pb.ConfChangeSingle{Type: pb.ConfChangeRemoveNode, NodeID: id}
+			default:
+				if !allowUpdate {
+					continue
+				}
+				return pb.ConfChangeSingle{Type: pb.ConfChangeUpdateNode, NodeID: id}
+			}
+		}
+	}
+	many := func(n int) []pb.ConfChangeSingle {
+		var out []pb.ConfChangeSingle
+		for k := 0; k < n; k++ {
+			out = append(out, one(true))
+		}
+		return out
+	}
+	joint := len(nd.conf.VotersOutgoing) > 0
+	switch x := s.rng.Intn(100); {
+	case joint && !nd.conf.AutoLeave && x < 55:
+		return pb.ConfChangeV2{} // LeaveJoint
+	case x < 25:
+		return pb.ConfChangeV2{Transition: pb.ConfChangeTransitionAuto, Changes: []pb.ConfChangeSingle{one(false)}}
+	case x < 50:
+		return pb.ConfChangeV2{Transition: pb.ConfChangeTransitionAuto, Changes: many(2 + s.rng.Intn(2))}
+	case x < 65:
+		return pb.ConfChangeV2{Transition: pb.ConfChangeTransitionJointImplicit, Changes: many(1 + s.rng.Intn(3))}
+	case x < 88:
+		return pb.ConfChangeV2{Transition: pb.ConfChangeTransitionJointExplicit, Changes: many(1 + s.rng.Intn(3))}
+	default:
+		return pb.ConfChangeV2{} // LeaveJoint (refused while not joint)
+	}
+}
+
+func v2Kind(cc pb.ConfChangeV2) string {
+	if cc.LeaveJoint() {
+		return "leave"
+	}
+	if al, ok := cc.EnterJoint(); ok {
+		if al {
+			return "enter-autoleave"
+		}
+		return "enter-explicit"
+	}
+	return "simple"
+}
+
+func (s *sim) doConfChangeV2(i int) {
+	nd := s.nodes[i]
+	cc := s.randomV2(nd)
+	s.stats["confchangev2-"+v2Kind(cc)]++
+	if s.rng.Intn(4) == 0 {
+		ents := []pb.Entry{v2Entry(cc)}
+		for k := 0; k < 1+s.rng.Intn(2); k++ {
+			if s.rng.Intn(3) == 0 {
+				data, _ := (&pb.ConfChange{Type: pb.ConfChangeAddNode, NodeID: uint64(1 + s.rng.Intn(s.n))}).Marshal()
+				ents = append(ents, pb.Entry{Type: pb.EntryConfChange, Data: data})
+			} else {
+				ents = append(ents, v2Entry(s.randomV2(nd)))
+			}
+		}
+		s.stats["confchange-batched"]++
+		s.event("confchange", i, func() []string {
+			err := nd.rn.Step(pb.Message{Type: pb.MsgProp, From: nd.id, Entries: ents})
+			if err != nil && !errors.Is(err, raft.ErrProposalDropped) {
+				panic(fmt.Sprintf("harness: Step(MsgProp with %d conf changes): %v", len(ents), err))
+			}
+			return []string{s.propsInput(nd, ents, err)}
+		})
+		return
+	}
+	s.event("confchange", i, func() []string {
+		err := nd.rn.ProposeConfChange(cc)
+		if err != nil && !errors.Is(err, raft.ErrProposalDropped) {
+			panic(fmt.Sprintf("harness: ProposeConfChange(v2): %v", err))
+		}
+		return []string{s.propsInput(nd, []pb.Entry{v2Entry(cc)}, err)}
 	})
 }
 
@@ -1226,9 +1457,52 @@ func (s *sim) scriptConflictInsideReady() {
 	s.stats["scripted-prologue"]++
 }
 
+// scriptJointSplit (joint profiles, five nodes) builds, with ordinary events only, a joint configuration whose halves have DIFFERENT quorums and lets
+// only one half answer.  (1 2 3) at the start; leader 1 is given JointExplicit [add 4, add 5, remove 2]: (1 3 4 5)&&(1 2 3), applied everywhere.
+// Then 2 and 3 are cut off.  A proposal is acknowledged by 4 and 5 - a majority of the incoming half, not of the outgoing one: it must NOT be
+// committed.  Node 4 campaigns: 5 and 1 grant - again a majority of the incoming half only: it must NOT win.  The partition is healed and the
+// schedule continues at random (the votes of 2 and 3 and the acknowledgements are still on their way).
+func (s *sim) scriptJointSplit() {
+	any := func(pb.Message) bool { return true }
+	s.doCampaign(0)
+	s.settle(any)
+	if s.bad || s.nodes[0].rn.BasicStatus().RaftState != raft.StateLeader {
+		return
+	}
+	nd := s.nodes[0]
+	cc := pb.ConfChangeV2{Transition: pb.ConfChangeTransitionJointExplicit, Changes: []pb.ConfChangeSingle{
+		{Type: pb.ConfChangeAddNode, NodeID: 4}, {Type: pb.ConfChangeAddNode, NodeID: 5}, {Type: pb.ConfChangeRemoveNode, NodeID: 2}}}
+	s.stats["confchangev2-"+v2Kind(cc)]++
+	s.event("confchange", 0, func() []string {
+		err := nd.rn.ProposeConfChange(cc)
+		if err != nil && !errors.Is(err, raft.ErrProposalDropped) {
+			panic(fmt.Sprintf("harness: ProposeConfChange(v2): %v", err))
+		}
+		return []string{s.propsInput(nd, []pb.Entry{v2Entry(cc)}, err)}
+	})
+	s.settle(any) // replicated, committed under (1 2 3), applied; 4 and 5 catch up and apply it too
+	if s.bad || len(nd.rn.Status().Config.Voters[1]) == 0 || len(s.nodes[3].rn.Status().Config.Voters[1]) == 0 {
+		return
+	}
+	s.group[1], s.group[2] = 1, 1 // ids 2 and 3 hear nothing from now on
+	s.doPropose(0)
+	s.settle(any) // acknowledged by 4 and 5 only
+	if s.bad {
+		return
+	}
+	s.doCampaign(3) // id 4, a voter of the incoming half only
+	s.settle(any)   // granted by 5 and 1 only
+	for i := range s.group {
+		s.group[i] = 0
+	}
+	s.stats["scripted-joint-split"]++
+}
+
 func (s *sim) run(events int) {
 	if s.prof.script && s.n == 5 {
 		s.scriptConflictInsideReady()
+	} else if s.prof.joint && s.n == 5 && s.rng.Intn(2) == 0 {
+		s.scriptJointSplit()
 	} else if s.rng.Float64() < 0.7 {
 		s.doCampaign(s.rng.Intn(s.n))
 	}
@@ -1426,10 +1700,8 @@ func runRaftsim(args []string) {
 	master := rand.New(rand.NewSource(*seed))
 	if *one != 0 {
 		prof := profiles[0]
-		for _, p := range profiles {
-			if p.name == *onlyP {
-				prof = p
-			}
+		if p, ok := profileByName(*onlyP); ok {
+			prof = p
 		}
 		n := 3
 		if *onlyN > 0 {
@@ -1450,11 +1722,12 @@ func runRaftsim(args []string) {
 		}
 		prof := profiles[k%len(profiles)]
 		if *onlyP != "" {
-			for _, p := range profiles {
-				if p.name == *onlyP {
-					prof = p
-				}
+			if p, ok := profileByName(*onlyP); ok {
+				prof = p
 			}
+		}
+		if prof.joint && *onlyN == 0 {
+			n = []int{5, 3, 5, 5, 3, 5, 4, 5}[k%8] // mostly clusters in which nodes can be added: 3 voters out of 4 or 5 nodes at the start
 		}
 		if prof.script {
 			n = 5
